@@ -285,6 +285,15 @@ def feSize : FE → Nat
 termination_by e => sizeOf e
 decreasing_by simp_wf; have := List.sizeOf_lt_of_mem a.2; omega
 
+/-- variables a leaf case records beyond `filter.Value`: the right-hand variable of `IdenticalTo`
+(`info.Vars[rhsVarname]`, present since the `fix:` commit; `strict` only) -/
+def leafVars (o : Oracles) (e : FE) : List String :=
+  if o.strict && e.op == fVarTypeIdenticalTo then
+    (match e.args[0]? with
+     | some a => (match a.value with | .str s => [s] | _ => [])
+     | none => [])
+  else []
+
 /-- `newFilter` / `newBinaryExprFilter`: outcome + the variables recorded in `info.Vars`.
 `fuel` bounds the recursion (always called with `feSize e + 1`). -/
 def newFilter (o : Oracles) : Nat → FE → LRes (List String)
@@ -319,7 +328,7 @@ def newFilter (o : Oracles) : Nat → FE → LRes (List String)
         match argAt e.args 0 with
         | .panic p => .panic p
         | .ok a0 => lbind (newFilter o fuel a0) fun v0 => lok (vs ++ v0)
-      else lbind (leafFilter o e) fun _ => lok vs
+      else lbind (leafFilter o e) fun _ => lok (vs ++ leafVars o e)
 
 /-- the `switch` of `loadSyntaxRule` on the pattern's root tag -/
 def dstTags (tagNumBuckets tagStmtList tagExprList tagDeclList tagNode tagUnknown : Nat)
